@@ -35,7 +35,10 @@ type FnSpec struct {
 	HasAssigns     bool
 	Trusted        bool
 	Inline         bool
+	Pure           bool     // the result is a function of the arguments and of the heap components named in Reads
+	Reads          []string // heap key prefixes a pure function may read (checked when the function itself is verified)
 	Lemma          bool
+	AssumedEnsures []*Clause // postconditions assumed at call sites and NOT proved (listed in the evidence as assumptions)
 	GhostEnsures   []*Clause // definitions of ghost state this function owns: assumed at call sites, nothing to prove
 	Safe           []string // property labels under which implicit obligations are checked
 	Unroll         map[int]int
@@ -50,7 +53,7 @@ type FnSpec struct {
 }
 
 func (s *FnSpec) hasContract() bool {
-	return len(s.Requires)+len(s.Ensures) > 0 || s.HasAssigns || s.Trusted
+	return len(s.Requires)+len(s.Ensures)+len(s.AssumedEnsures) > 0 || s.HasAssigns || s.Trusted || s.Pure
 }
 
 // props returns the set of properties the spec has clauses for.
@@ -288,6 +291,15 @@ func (c *Contracts) parseFile(prog *ssa.Program, p *packages.Package, sp *ssa.Pa
 				if s, cl := c.spec(sp, fs[1], pos), clause(splitLabels(fs[2:])); s != nil && cl != nil {
 					s.Ensures = append(s.Ensures, cl)
 				}
+			case "assume-ensures":
+				// assume-ensures <target>: a postcondition the engine cannot prove (e.g. it needs induction over a tree);
+				// call sites assume it, the evidence lists it as an assumption, bounded lemmas may support it
+				if !need(2) {
+					continue
+				}
+				if s, cl := c.spec(sp, fs[1], pos), clause(nil); s != nil && cl != nil {
+					s.AssumedEnsures = append(s.AssumedEnsures, cl)
+				}
 			case "ghost-ensures":
 				// ghost-ensures <target>: the clause DEFINES how the target updates specification-only (ghost) state
 				if !need(2) {
@@ -414,6 +426,20 @@ func (c *Contracts) parseFile(prog *ssa.Program, p *packages.Package, sp *ssa.Pa
 				}
 				if s := c.spec(sp, fs[1], pos); s != nil {
 					s.Trusted = true
+				}
+			case "pure":
+				// pure <target> reads <prefix>, <prefix> ...
+				if !need(4) || fs[2] != "reads" {
+					c.errorf("%s: malformed directive %q (pure <target> reads <prefixes>)", pos, d)
+					continue
+				}
+				if s := c.spec(sp, fs[1], pos); s != nil {
+					s.Pure = true
+					for _, r := range strings.Split(strings.Join(fs[3:], " "), ",") {
+						if r = strings.TrimSpace(r); r != "" {
+							s.Reads = append(s.Reads, r)
+						}
+					}
 				}
 			case "inline":
 				if !need(2) {
